@@ -402,8 +402,12 @@ class ProbeEngine(object):
         xy = self.pick_chip()
         ch = m.chips[xy]
         p = t.draw(len(ch.cores))
-        cr = ch.cores[p]
         which = t.draw(3)
+        if which and t.draw(2) and self.iobuf_cores:
+            # prefer a core that printed something
+            xy, p = self.iobuf_cores[t.draw(len(self.iobuf_cores))]
+            ch = m.chips[xy]
+        cr = ch.cores[p]
         name = ["get_processor_status", "get_iobuf", "get_iobuf_bytes"][which]
         w.trace.ev("op", name)
         w.ops.append("%s(%d, %d, %d)" % (name, p, xy[0], xy[1]))
@@ -560,6 +564,9 @@ class ProbeEngine(object):
         self.all_chips = sorted(m.chips)
         self.good_chips = sorted(xy for xy, ch in m.chips.items()
                                  if not ch.dead and not ch.unresponsive)
+        self.iobuf_cores = [(xy, p) for xy in self.good_chips
+                            for p, cr in enumerate(m.chips[xy].cores)
+                            if cr.iobuf]
 
     def run(self):
         t, w = self.t, self.w
